@@ -277,20 +277,31 @@ func RunWorkers(n int, extraEnv []string, memLimitKB int, onLine func(worker int
 }
 
 type tailBuffer struct {
-	mu  sync.Mutex
-	buf []byte
+	mu   sync.Mutex
+	head []byte // first 4 KiB: a Go fatal error names its cause at the top of the dump
+	buf  []byte
 }
 
 func (t *tailBuffer) Write(p []byte) (int, error) {
 	t.mu.Lock()
 	defer t.mu.Unlock()
+	if room := 4096 - len(t.head); room > 0 {
+		t.head = append(t.head, p[:min(room, len(p))]...)
+	}
 	t.buf = append(t.buf, p...)
 	if len(t.buf) > 16384 {
 		t.buf = t.buf[len(t.buf)-16384:]
 	}
 	return len(p), nil
 }
-func (t *tailBuffer) String() string { t.mu.Lock(); defer t.mu.Unlock(); return string(t.buf) }
+func (t *tailBuffer) String() string {
+	t.mu.Lock()
+	defer t.mu.Unlock()
+	if len(t.buf) < 16384 {
+		return string(t.buf)
+	}
+	return string(t.head) + "\n[...]\n" + string(t.buf)
+}
 
 // Deadline support: a check given a time budget stops cleanly (exhaustive:false), never alarms.
 type Budget struct {
